@@ -1,13 +1,42 @@
 SOURCE_COMMITS = ["2f4e168"]
-NOTES = "All checks: python3 vt.py <id> --tier quick|thorough. Exploration runs on the real library; reference oracles are small C++ models next to the harness. See DESIGN.md."
+NOTES = ("All checks: python3 vt.py <id> --tier quick|thorough. Exploration runs on the real library; reference oracles are "
+         "small C++ models next to the harness. Defects found so far were repaired by 'fix:' commits in /repo and are listed "
+         "in known_findings.txt as fixed: entries. See DESIGN.md.")
 ENGINES = [
-    {"name": "vt-component", "path": "/verif/harness", "serves_properties": ["C19"],
-     "kind_free_text": "explicit-state BFS to a fixpoint over the concrete state of real library containers, compared edge by edge with std containers"},
+    {"name": "vt-engine", "path": "/verif/engine", "serves_properties": ["C01", "C02", "C03"],
+     "kind_free_text": "explicit-state BFS to a fixpoint over quiescent states of generated machines, executed on the real library (fresh instance + history replay per edge), with deviation-bounded enumeration of every callback decision inside a step; monitors and a reference semantics evaluated on every edge"},
+    {"name": "vt-component", "path": "/verif/harness", "serves_properties": ["C07", "C18", "C19", "C20"],
+     "kind_free_text": "explicit-state BFS / bounded-exhaustive enumeration over the concrete state of real library components, compared edge by edge with std containers or independent reference code"},
 ]
 PENDING = {}
 
+ENGINE_NOTE = ("Trusts g++/clang++, the -fno-access-control probe used for the canonical state key, and the independently "
+               "numbered structure descriptor (cross-checked against the library's registry before exploring). Bounds: the "
+               "curated program set (thorough: plus the systematic family), <= 1 (thorough 2) non-default callback decisions per "
+               "step, request batches of <= 2 (thorough 3); documented preconditions respected.")
+
+chk("C01", "model_checking",
+    "All reachable quiescent states of every generated program (BFS to a fixpoint on the real library) x the full API alphabet x all request batches up to the bound x every choice vector with <= d non-default callback decisions; the well-formedness invariant is evaluated with the public queries at every state and with Control inside every update/react/query/guard callback. This is the quantifier of the property (all states, all requests, all callback decisions) within explicit bounds, which the literal-log tests cannot reach.",
+    ENGINE_NOTE, "explicit-state model checking of the real implementation (BFS fixpoint + deviation-bounded DFS), invariant oracle", "DESIGN.md 3, 4 C01")
+chk("C02", "model_checking",
+    "Every edge of the same exhaustive exploration is compared with a reference semantics written from the property text (engine/refmodel.hpp): configuration equality for single requests, statement-level clauses for batches, resumable marks against delivered exit() callbacks, reset() vs first activation, empty step. traces_validated_against_impl = edges compared.",
+    ENGINE_NOTE + " Under-specified corners follow the weakest reading (DESIGN.md 3.4 policy).", "explicit-state model checking with a reference-model oracle on every edge", "DESIGN.md 3.4, 4 C02")
+chk("C03", "model_checking",
+    "Every execution of the exhaustive exploration is extended to the destruction of the instance and a per-state lifecycle automaton (alternation, delivery only while entered, nesting, nothing entered at the end, this == &access<State>()) runs over the complete callback trace.",
+    ENGINE_NOTE, "explicit-state model checking, trace-automaton oracle over complete histories", "DESIGN.md 4 C03")
+chk("C07", "model_checking",
+    "BFS to a fixpoint over the concrete plan storage (per-region lists, task links, bounds, pool counters) of a real 3-region machine for task capacities 1..3 (thorough 1..5), void and int payloads, ops append / remove-while-iterating (every subset) / clear on every region, each edge compared with a vector-of-vectors reference and a structural invariant on the raw links.",
+    "Trusts the compilers, sanitizers and std::vector reference; states are op histories replayed on fresh instances; capacities above 5 not explored.",
+    "explicit-state BFS on the real plan storage with reference-container oracle", "DESIGN.md 4 C07")
+chk("C18", "exploration",
+    "Bounded-exhaustive enumeration: all 2^N contents x all ops for N<=10 (thorough 13) and structured states for N up to 64; every (unit,width) view on guard-paged and exact-size heap copies; every start alignment x width 1..32 x value alphabet for streams with sentinel; compared with bitset/bit-vector references.",
+    "Trusts compilers, ASan, mprotect guard pages, the reference bit vectors. The boolean operator& on intersecting sets is only observed (its meaning is not stated by the property).",
+    "bounded-exhaustive enumeration of inputs with reference oracle", "DESIGN.md 4 C18")
 chk("C19", "model_checking",
-    "Explicit-state BFS to a fixpoint over every concrete state (links, vacant list, counters, contents) of the real TaskListT for capacities 1..4 (thorough 1..6), DynamicArrayT for all contents up to capacity 4 (6) and StaticArrayT for all tuples over a small alphabet; each edge is checked against std::map/std::vector and after every clear() a lock-step product search against a fresh pool decides 'behaves as new'. Exhaustive for those capacities and the 2-letter item alphabet - enough to drive every branch (recycle/grow/last/full, partial/from-full) in every order, which tests cannot enumerate.",
+    "Explicit-state BFS to a fixpoint over every concrete state (links, vacant list, counters, contents) of the real TaskListT for capacities 1..4 (thorough 1..6), DynamicArrayT for all contents up to capacity 4 (6) and StaticArrayT for all tuples over a small alphabet; each edge is checked against std::map/std::vector and after every clear() a lock-step product search against a fresh pool decides 'behaves as new'.",
     "Trusts g++/clang++, ASan/UBSan, the std containers used as reference; capacities above 6 and item alphabets above 2 letters are not explored; objects are branched by value copy.",
-    "explicit-state BFS on the real containers with a reference-container oracle",
-    "DESIGN.md section 4 C19")
+    "explicit-state BFS on the real containers with a reference-container oracle", "DESIGN.md 4 C19")
+chk("C20", "exploration",
+    "All 2^32 seeds of the 32-bit variants (thorough; quick 2^22) and all 2^32 arguments of uniform(uint32_t), windows of 64-bit seeds x 256 outputs, jump(), compared with an independent transcription of the published splitmix/xoshiro reference code (self-checked against published test vectors); digests compared across g++/clang++ builds and re-runs.",
+    "Trusts the transcription of the published algorithms (validated against known answers), the compilers; 64-bit seeds and stream positions outside the windows rest on the step functions being state-independent code.",
+    "exhaustive enumeration of the 32-bit seed/argument space with reference-implementation oracle", "DESIGN.md 4 C20")
